@@ -2,6 +2,9 @@
 #include <occa/internal/modes/serial/device.hpp>
 #include <occa/internal/modes/serial/memory.hpp>
 #include <occa/internal/modes/serial/memoryPool.hpp>
+#ifdef LIBOCCA_OCCA_VERIF
+#  include <occa/internal/utils/verif.hpp>
+#endif
 
 namespace occa {
 
@@ -12,9 +15,15 @@ namespace occa {
     reserved(0),
     buffer(nullptr) {
     verbose = properties_.get("verbose", false);
+#ifdef LIBOCCA_OCCA_VERIF
+    occa::verif::registerObject(occa::verif::kMemoryPool, this);
+#endif
   }
 
   modeMemoryPool_t::~modeMemoryPool_t() {
+#ifdef LIBOCCA_OCCA_VERIF
+    occa::verif::unregisterObject(occa::verif::kMemoryPool, this);
+#endif
     // NULL all wrappers
     while (memoryPoolRing.head) {
       memoryPool *memPool = (memoryPool*) memoryPoolRing.head;
